@@ -700,12 +700,35 @@ func (v *Verifier) runPartition(pkg *ssa.Package, fn *ssa.Function, c *Contract,
 		if _, ok := hdr.(*SliceV); !ok {
 			unsup("slicealias: representative %s has no slice header", fn.Params[rep].Name())
 		}
+		if strings.Contains(c.Options["slicealias"], "prefix") {
+			// same backing array and same start, lengths independent (p = q[:k], the "reuse the memory of" idiom):
+			// the capacity is then shared; identical slices are the special case of equal lengths
+			rh := hdr.(*SliceV)
+			var own *SliceV
+			switch iv := env[fn.Params[i]].(type) {
+			case *SliceV:
+				own = iv
+			case *PtrV:
+				own, _ = st.mem[iv.Obj].(*SliceV)
+				if own == nil {
+					own, _ = v.initMem[iv.Obj].(*SliceV)
+				}
+			}
+			if own == nil || own.Len == nil {
+				unsup("slicealias prefix: parameter %s has no slice header", fn.Params[i].Name())
+			}
+			st.pc = v.F.And(st.pc, v.F.Le(own.Len, rh.Cap))
+			hdr = &SliceV{Obj: rh.Obj, Path: rh.Path, Off: rh.Off, Len: own.Len, Cap: rh.Cap}
+		}
 		switch iv := env[fn.Params[i]].(type) {
 		case *SliceV:
 			env[fn.Params[i]] = hdr
 			fr.params[fn.Params[i].Name()] = hdr
 		case *PtrV:
 			st.mem[iv.Obj] = hdr
+			if _, inInit := v.initMem[iv.Obj]; inInit {
+				v.initMem[iv.Obj] = hdr
+			}
 		default:
 			unsup("slicealias: parameter %s is not a slice carrier", fn.Params[i].Name())
 		}
